@@ -1,7 +1,11 @@
 """C08 similarity transforms: the power-of-two scaling clause is decided soundly by homogeneity (degree) inference over every
 float comparison and coordinate construction reachable from the API.  Translation, mirroring, transposition and quarter turns
-are NOT decided (the sweep is deliberately asymmetric in x/y and up/down)."""
-from rules import degreerules
+are NOT decided (the sweep is deliberately asymmetric in x/y and up/down), except for one structural necessary condition of the
+translation clause: every event point is an input vertex, the clamped point returned by intersection() for a proper crossing,
+or the point of an existing event (G-sources) - in particular the end points of a collinear overlap are the existing vertices
+and never re-computed in floating point (a re-computed a1 + s*(a2-a1) is not exact even on integer inputs and its rounding
+depends on the absolute position)."""
+from rules import degreerules, fillrules, pirules
 
 LEVEL = 'proof'
 EXPLANATION = __doc__
@@ -10,8 +14,12 @@ TRUSTED = ['rustc nightly type checker / MIR construction / callee resolution', 
            'degree-1 points to degree 2 and its adaptive error bounds are eps-constant x |degree-2 sums|, so they scale with the data',
            'IEEE-754: multiplication by 2^k is exact and commutes with + - * / comparisons absent overflow/underflow/subnormals']
 ASSUMPTIONS = ['no overflow, underflow or subnormal intermediate (the property excludes them)',
-               'only the scaling clause of C08 is claimed; translation / mirror / transpose / rotation are not decided']
+               'the scaling clause of C08 is decided; of the translation clause only the provenance of event points (G-sources) is checked; mirror / transpose / rotation are not decided']
 
 
 def run(ctx, rep):
     degreerules.check_degrees(ctx, rep)
+    # translation clause, structural part: where the point of every created event comes from
+    fillrules.check_process_polygon(ctx, rep, rules=('G-sources', None, None, None, None))
+    fillrules.check_divide(ctx, rep, rules=('G-sources', None))
+    pirules.check_code(ctx, rep, rule='G-sources')
